@@ -284,7 +284,7 @@ func main() {
 	}
 	pvj, err := os.OpenFile(filepath.Join(*home, "pvjournal"), os.O_CREATE|os.O_WRONLY|os.O_APPEND, 0o644)
 	must(err)
-	pv := &jpv{inner: privval.LoadFilePV(keyFile, stateFile), jf: pvj}
+	pv := &jpv{inner: privval.LoadOrGenFilePV(keyFile, stateFile), jf: pvj} // the call cmd/tendermint makes at start-up
 	app := recapp.New(recapp.Options{Dir: filepath.Join(*home, "app"), Journal: filepath.Join(*home, "appjournal"), Incarnation: incarnation,
 		RetainBlocks: *retain,
 		Hook: func(ev recapp.Event) {
